@@ -46,6 +46,15 @@ type Config struct {
 	Extra func(seed int64) []Case
 }
 
+func hasTimingViolation(r *Record) bool {
+	for _, v := range r.Violations {
+		if v.Symptom == SymWaitExceedsMax {
+			return true
+		}
+	}
+	return false
+}
+
 func childMain(cfg Config) {
 	// scratch lives inside the parent's temporary directory, which the parent removes
 	scratch, _ := os.MkdirTemp(filepath.Dir(*fOut), "scratch-")
@@ -75,6 +84,21 @@ func childMain(cfg Config) {
 		w.Flush()
 		rec := Run(c, scratch)
 		cfg.Judge(rec)
+		// a verdict that rests on elapsed time is kept only if it repeats in two further runs of the case
+		for rerun := 0; rerun < 2 && hasTimingViolation(rec); rerun++ {
+			again := Run(c, scratch)
+			cfg.Judge(again)
+			if !hasTimingViolation(again) {
+				var keep []Violation
+				for _, v := range rec.Violations {
+					if v.Symptom != SymWaitExceedsMax {
+						keep = append(keep, v)
+					}
+				}
+				rec.Violations = keep
+				rec.TimingNoise++
+			}
+		}
 		if len(rec.Violations) == 0 {
 			rec.Stacks = ""
 		}
@@ -154,6 +178,12 @@ func Main(cfg Config) {
 		run.Count("adapter_attempts", int64(len(rec.Attempts)))
 		run.Count("batch_http_requests", int64(rec.HTTPBatchReqs))
 		run.Count("errors_reported", int64(len(rec.Errors)))
+		if rec.TimingNoise > 0 {
+			run.Count("elapsed_time_verdicts_dropped_as_not_repeatable", int64(rec.TimingNoise))
+		}
+		if rec.RealFiles > 0 {
+			run.Count("real_adapter_destination_files_checked", int64(rec.RealFiles))
+		}
 		for k, n := range rec.Events {
 			run.Count("hook:"+k, int64(n))
 		}
